@@ -16,8 +16,21 @@ class Prop(C02):
         n = 700 if tier == 'quick' else 7000
         cases = []
         for k in range(n):
-            cases.append(R.gen_history(rng, rng.randint(5, 40), evpn=(k % 9 == 8), deferral=(k % 3 == 0), limits=(k % 4 == 1)))
+            if k % 6 == 3:
+                # deferral-heavy histories: changes leak out of remove / next-hop flips while inserts are held back,
+                # and filtered or next-hop-invalid replacements take eligible paths away again
+                w = dict(ins=10, rem=3, drop=1, dropk=1, restale=1, nhv=4, reconnect=0, deferral=3)
+                cases.append(R.gen_history(rng, rng.randint(5, 40), weights=w))
+            else:
+                cases.append(R.gen_history(rng, rng.randint(5, 40), evpn=(k % 9 == 8), deferral=(k % 3 == 0), limits=(k % 4 == 1)))
         return cases
+
+    def corpus_cases(self):
+        import glob, json, os
+        out = []
+        for f in sorted(glob.glob(os.path.join(os.path.dirname(os.path.dirname(os.path.abspath(__file__))), 'corpus', 'C06', '*.json'))):
+            out.append(R.case_from_json(json.load(open(f))['case']))
+        return out
 
     def run_impl(self, cases, tier):
         return R.run_impl('C06', cases, release=False)
